@@ -32,8 +32,8 @@ CLAIMED = {
             '(bounded in topology).', '3 C06, 0-bis.7'),
     'C07': ('other', 'BatchNorm fusing / folding algebra of remove_bn_inplace and fuse_bn_inplace for all bias/affine combinations, weight copy, open-mask forward '
             'identity, user objects untouched, mode restoration. Whole-model clauses (PIT / SuperNet / MPS constructors through the real convert()) on enumerated architectures only.', '3 C07, 0-bis.7'),
-    'C08': ('proof', 'For ALL real architectural parameters every PIT layer keeps >= 1 feature, >= 1 tap, dilation >= 1; frozen maskers keep full size; exported sizes == '
-            'summary(); export is defined. Kernel sizes 1..9 (quick) / 1..16, dilations, strides, widths enumerated. Which groups are frozen: the real graph pass on enumerated graphs and enumerated whole models (bounded in topology).', '3 C08, 0-bis.7'),
+    'C08': ('other', 'Per layer (proofs over all reals): for ALL real architectural parameters every PIT layer keeps >= 1 feature, >= 1 tap, dilation >= 1; frozen maskers keep full size; exported sizes == '
+            'summary(); export is defined. Kernel sizes 1..9 (quick) / 1..16, dilations, strides, widths enumerated. Which groups are frozen and that the exported network keeps the output shape: the real graph pass on enumerated graphs and enumerated whole models (bounded in topology); two architectures are known findings (output = channel concatenation; symmetric built-in padding of a temporal convolution).', '3 C08, 0-bis.7, 0-bis.8'),
     'C09': ('other', 'Contracts of the four features calculators (sum over concat of searchable / fixed inputs, flatten multiplier and mask expansion, propagation), '
             'their discrete consistency, the frame of register(), the channel-axis test of is_features_concatenate; the BFS that wires them runs from source on six enumerated '
             'architectures (bounded in topology), not over all DAGs.', '3 C09, 0-bis.7'),
@@ -45,11 +45,14 @@ CLAIMED = {
             'representative wrapper per method (structure concrete, convert() under an assumed contract); frozen-by-construction groups and the parameter partition also through '
             'the real convert() on enumerated whole models.', '3 C11, 0-bis.7'),
     'C12': ('other', 'Composed: cost functions defined / non-negative / monotone (C16 harnesses), PIT effective sizes monotone in mask magnitudes in both cost modes, open '
-            'masks = original, pass-through backward bodies of all straight-through functions. Clauses about autograd gradients are not decided.', '3 C12'),
+            'masks = original, pass-through backward bodies of all straight-through functions; ODiMO reduction on a latency vector, the default ODiMO_MPS cost (known finding: cannot be evaluated). Clauses about autograd gradients are not decided.', '3 C12, 0-bis.8'),
     'C13': ('proof', 'Element-wise post-conditions of the real quantizer kernels (range, integrality, fq = int x reported scale, monotone, error '
             'below one step, truncation, zero-scale bias) over all real inputs, for bits 0,2..8 (quick: 0,2,4,8).', '3 C13'),
-    'C14': ('other', 'binary_search (unbounded, recursive contract), range clauses of MATCH _integer_approximation, dilation padding, floor-based requantisation range, '
-            'definedness of the MATCH constructors; two known findings (bias-free layers, axis-1 dilation). MAUPITI: a bounded check on concrete values only (two layers sharing a stateful weight quantizer); the graph rewrite is not decided.', '3 C14'),
+    'C14': ('other', 'binary_search (unbounded, recursive contract), range clauses of MATCH _integer_approximation on symbolic scales, dilation padding, floor-based requantisation '
+            'range, constructors with and without bias (symbolic weights). The statement per layer: MATCH / MAUPITI conv2d / linear built by the real constructors reproduce, for EVERY '
+            'integer input image, the integer image of their fake-quantized counterpart within one level + the scale/shift approximation bound; stored integers in range; last-layer '
+            'logits clauses (weights / clipping values from concrete tables: bounded in those). integerize_arch on one enumerated whole exported MPS model (graph rewrite, quantizer '
+            'identity, per-layer reproduction inside the network, input symbolic). One known finding (MAUPITIConv2d as last layer).', '0-bis.8, 3 C14'),
     'C15': ('proof', 'All clauses of the statement are post-conditions of the real CostSpec.__getitem__/__setitem__: loop-free proofs for every '
             'registration sequence of length 0..4 with symbolic constraint verdicts, plus an unbounded-length proof through a loop invariant '
             'on the scan. Order independence follows because the post-conditions mention only the set of registrations.', '3 C15'),
